@@ -631,7 +631,7 @@ def run(rep):
                  "vtu files of an intermediate and of the last export index with time_index=k; compared with the checker's record of the "
                  "arrays handed to write_vtu and of time_manager.time / dt at export k; nontrivial = k >= 1 (the restored values differ "
                  "from the initial condition of the fresh model) ; distinct by (model, restart path, k)",
-            bound="1 model (thorough: 3), <= 8 exports, <= 34 cells",
+            bound="1 model (thorough: 3), 4 or 16 matrix cells, one export per time step (6 with the stated time control)",
             exhaustive=False,
         ) as sw:
             for cs, fr in ((0.5, (0, 1)),) if quick else ((0.5, (0, 1)), (0.25, (0, 1)), (0.5, (0,))):
